@@ -252,10 +252,12 @@ def smooth_cubic(rng):
     return [p0] + list(els[k][1:])
 
 
-def closed_loop(rng):
+def closed_loop(rng, size=None):
     """a closed smooth loop: a whole ellipse (any rotation) as a chain of G1 cubics whose last point IS the first point"""
     n = rng.randint(4, 16)
     rx, ry, rot = rng.uniform(2, 8), rng.uniform(2, 8), rng.uniform(0, 3)
+    if size is not None:
+        rx, ry = size * rng.uniform(0.5, 1), size * rng.uniform(0.3, 1)
     cx, cy = rng.uniform(-3, 3), rng.uniform(-3, 3)
     cr, sr = math.cos(rot), math.sin(rot)
     f = lambda t: (cx + cr * rx * math.cos(t) - sr * ry * math.sin(t), cy + sr * rx * math.cos(t) + cr * ry * math.sin(t))
@@ -308,6 +310,11 @@ def generate(rng, tier):
             loop = closed_loop(rng)
             yield fit(loop, acc, (k // 4) % 2, f'fit-closed-loop-opt{(k // 4) % 2}')
             yield simplify(loop + ([('Z',)] if rng.random() < 0.5 else []), acc, (k // 8) % 2, f'simplify-closed-loop-opt{(k // 8) % 2}')
+            # small loops: diameter between a few accuracies and sqrt(accuracy) - every chord is shorter than the accuracy long before the loop is resolved
+            acc_s = 10.0 ** rng.uniform(-4, -1)
+            small = closed_loop(rng, size=rng.uniform(3 * acc_s, max(4 * acc_s, 0.45 * math.sqrt(acc_s))))
+            yield fit(small, acc_s, (k // 4) % 2, f'fit-small-loop-opt{(k // 4) % 2}')
+            yield simplify(small + [('Z',)], acc_s, (k // 8) % 2, f'simplify-small-loop-opt{(k // 8) % 2}')
         for how in range(3):
             if how == 0:
                 v = [rng.randint(-40, 40) / 4.0 for _ in range(8)]
